@@ -911,6 +911,7 @@ def _mutants():
     from selftest.mutate import Mutant as M
     D = "_dataloaders.py"
     return [
+        M("right-context-from-the-left-parameter", "_datasets.py", "right = params.context_right", "right = params.context_left", "deprecated-argument(right)"),
         M("reverse-only-when-padded", "_datasets.py", "            window[-right_pad:] = feat[-1]\n    else:\n        window = feat[frame_idx - left:frame_idx + right + 1]\n    if reverse:\n        window = torch.flip(window, [0])", "            window[-right_pad:] = feat[-1]\n        if reverse:\n            window = torch.flip(window, [0])\n    else:\n        window = feat[frame_idx - left:frame_idx + right + 1]", "option-reverse-honoured-on-every-path-to-a-return"),
         M("bucket-accumulator-kept-on-the-sampler", "_dataloaders.py", "batches: Dict[H, List[int]] = dict()\n        for idx in self.sampler:", "batches = self.__dict__.setdefault('_batches', dict())\n        for idx in self.sampler:", "accumulator"),
         M("empty-data-set-indexed", "_dataloaders.py", "if not len_idx:\n        return (dict(), dict())\n", "", "data-set-sized-list-indexed-under-a-guard"),
